@@ -47,6 +47,11 @@ CLAIMS["C19"] = ("bounded symbolic execution (symx, symbolic pixels) of the real
          "size (all pixels symbolic) and every admissible placement of a forced horizontal mode, with EncodedByteAlign/BlackIs1/EOFB as symbolic choices, decoding the reference encoder's output (mode level and bit "
          "level) returns the rows; long rows across the 64/2560 make-up boundaries and the code tables are covered by enumeration harnesses.",
          "4.C19")
+CLAIMS["C08"] = ("bounded symbolic execution (symx, real arithmetic) of the real LTPage.analyze / group_objects / group_textlines / group_textboxes on real LTChar objects with symbolic boxes",
+         "For every position of two fixed-size glyphs (quick; also two general glyphs, degenerate zero-width/height glyphs with ordinary/blank/empty text and three glyphs in thorough) plus a non-text item, under each "
+         "listed LAParams vector (defaults, boxes_flow=None, detect_vertical, negative, ...), analysis terminates, every item occurs exactly once, every line/box/group box is the union of its members, lines end in a "
+         "line break and are ordered inside boxes, boxes are numbered 0..n-1, container text is the concatenation. One z3 formula per path; bounded.",
+         "4.C08")
 NA = {}
 def main():
     props = [json.loads(l) for l in open(os.path.join(ROOT, "properties.jsonl"))]
